@@ -118,7 +118,7 @@ NoImpact(e) == e.VC = "N" /\ e.VI = "N" /\ e.VA = "N" /\ e.SC = "N" /\ e.SI = "N
 (* q = <<eq1..eq6>>; s = <<s1, s2, s36, s4>>.  Terms: available distance (tenths) of each    *)
 (* EQ that has a next-lower MacroVector, times distance / depth; EQ5 has distance 0 but       *)
 (* counts in the mean when it has a lower level.                                              *)
-Max(a, b) == IF a > b THEN a ELSE b
+MaxI(a, b) == IF a > b THEN a ELSE b
 (* exact value = x / den tenths *)
 ScoreFrac(q, s) ==
   LET L == Lk(q)
@@ -130,7 +130,7 @@ ScoreFrac(q, s) ==
       a1 == IF has1 THEN L - Lk([q EXCEPT ![1] = q[1] + 1]) ELSE 0
       a2 == IF has2 THEN L - Lk([q EXCEPT ![2] = q[2] + 1]) ELSE 0
       a4 == IF has4 THEN L - Lk([q EXCEPT ![4] = q[4] + 1]) ELSE 0
-      nx36 == CASE q[3] = 0 /\ q[6] = 0 -> Max(Lk([q EXCEPT ![3] = 1]), Lk([q EXCEPT ![6] = 1]))
+      nx36 == CASE q[3] = 0 /\ q[6] = 0 -> MaxI(Lk([q EXCEPT ![3] = 1]), Lk([q EXCEPT ![6] = 1]))
                 [] q[3] = 0 /\ q[6] = 1 -> Lk([q EXCEPT ![3] = 1])
                 [] q[3] = 1 /\ q[6] = 1 -> Lk([q EXCEPT ![3] = 2])
                 [] q[3] = 1 /\ q[6] = 0 -> Lk([q EXCEPT ![6] = 1])
